@@ -475,6 +475,27 @@ theorem add_mul_operators_commute (d : String) (hd : d = "__add__" ∨ d = "__mu
   · have : f = (· * ·) := (Option.some.inj hf).symm
     subst this; exact op_comm _ (fun a b => _root_.mul_comm a b) s1 s2 m fill
 
+/-- "the result is a new spectrum": the grid test of the model (`validWave`, which every result, conversion and resampled grid
+goes through) is the three refusals of the `Spectrum.wave` setter as the source spells them (`Gen.waveRejectsSample`:
+`value <= 0`; sortedness; `Gen.waveRejectsStep`: `value[1:] - value[:-1] == 0`): no sample of an accepted grid is rejected
+by the first, and on two adjacent samples acceptance is exactly "both pass the first test, in order, step not rejected" -/
+theorem wave_setter_is_code :
+    (∀ w : List ℚ, validWave w = true → ∀ x ∈ w, Gen.waveRejectsSample x = false) ∧
+    (∀ a b : ℚ, validWave [a, b] = true ↔
+      Gen.waveRejectsSample a = false ∧ Gen.waveRejectsSample b = false ∧ a ≤ b ∧ Gen.waveRejectsStep a b = false) := by
+  refine ⟨?_, ?_⟩
+  · intro w h x hx
+    have := validWave_pos w h x hx
+    simp only [Gen.waveRejectsSample, decide_eq_false_iff_not, not_le]; exact this
+  · intro a b
+    simp only [validWave, strictIncB, Gen.waveRejectsSample, Gen.waveRejectsStep, List.all_cons, List.all_nil, Bool.and_true,
+      Bool.and_eq_true, decide_eq_true_eq, decide_eq_false_iff_not, not_le]
+    constructor
+    · rintro ⟨⟨ha, hb⟩, hab⟩
+      exact ⟨ha, hb, le_of_lt hab, fun h => by linarith⟩
+    · rintro ⟨ha, hb, hle, hne⟩
+      refine ⟨⟨ha, hb⟩, lt_of_le_of_ne hle (fun h => hne (by rw [h]; ring))⟩
+
 /-- non-vacuity: nested ranges, fill 0 -/
 example : ufunc (· + ·) ⟨[1, 2, 3], [10, 20, 30]⟩ ⟨[2, 3, 4, 5], [1, 1, 1, 1]⟩ .min 0
     = .ok ⟨[1, 2, 3, 4, 5], [10, 21, 31, 1, 1]⟩ := by decide +kernel
